@@ -121,7 +121,20 @@ fn main() {
    }
    let mut groups = match &o.from_replay {
       Some(p) => vec![group_from_replay(p, None)],
-      None => plans::plan(&o),
+      None => {
+         let mut gs = plans::plan(&o);
+         // KF-3 in its join form is excluded by construction in every generated program (semantics-preserving rewrite)
+         let cfg = GenCfg::core();
+         for g in gs.iter_mut() {
+            for m in g.members.iter_mut() {
+               let n = gen::repair_kf3_joins(&mut m.prog, &cfg);
+               for _ in 0..n {
+                  count_excluded("KF-3 (join on the lattice column of the first clause rewritten)");
+               }
+            }
+         }
+         gs
+      },
    };
    // committed replays of open known findings of this property run as fixed cases in every run
    if let (Some(dir), None) = (&o.findings, &o.from_replay) {
